@@ -1,1 +1,2211 @@
-fn main() {}
+//! writemon - runtime monitor for the buffered writer (C09): the sink receives exactly the formatted bytes, in
+//! order, whatever the piece sizes, the fill level of the internal buffer and the way the sink accepts writes;
+//! the produced text reads back through `Reader` to the original values.
+//!
+//! Modes (`--mode`, default `all` = every mode below; `u32sweep` only in the thorough tier):
+//!   integers   typed sweeps: every value of the 8/16-bit types, boundary values (10^k, 2^k, +-1, negations, MIN/MAX
+//!              neighbourhood) and random values of the wider types
+//!   fill       fill-level targeting: buffer filled to BUF-k, then one piece of each kind, flush, compare
+//!   strings    strings of length 0, 1, BUF-1, BUF, BUF+1, 2BUF, 3BUF+7 ... as &str / String on several pre-fill levels
+//!   compound   tuples (arity 2..=8, mixed types), vectors (empty/1/many), nested, out!/outln! macros
+//!   random     long random sequences (50-400 pieces, up to ~5 BUF bytes) against hostile sinks
+//!   lifecycle  drop without flush, flush on empty writer, double flush, ...
+//!   u32sweep   every u32 value (chunks of 2^16)
+//! Monitors: (1) after flush()/drop: sink == expected; (2) after every write: sink is a prefix of expected;
+//! (3) after every write: sink.len() + verif_pending() == expected.len().
+//! Replay: --mode <m> --case <seed>/<id>
+
+use common::{catch, hash_str, lib, mix, show_bytes, Engine, Json, Report, Rng, WorkQueue};
+#[allow(unused_imports)]
+use rlib_io::make_output_macro_;
+use rlib_io::{Readable, Reader, Writable, Writer};
+use std::cell::{Cell, RefCell};
+use std::collections::VecDeque;
+use std::fmt::{Debug, Display};
+use std::io::{self, Read, Write};
+use std::mem::ManuallyDrop;
+use std::rc::Rc;
+
+const PROFILE: &str = if cfg!(debug_assertions) { "dev" } else { "release" };
+
+// ------------------------------------------------------------------------------------------------
+// Sink under harness control
+
+#[derive(Clone, Debug)]
+enum Ins {
+    /// accept k bytes (clipped to 1..=offered)
+    Accept(usize),
+    /// accept everything but the last k bytes (at least 1)
+    AllBut(usize),
+    Interrupt,
+}
+
+#[derive(Clone, Debug)]
+enum Policy {
+    All,
+    AtMost(usize),
+    Random { seed: u64, intr_pct: u64 },
+}
+
+#[derive(Clone, Debug)]
+struct SinkSpec {
+    schedule: Vec<Ins>,
+    policy: Policy,
+}
+
+impl SinkSpec {
+    fn to_json(&self) -> Json {
+        let sched: Vec<String> = self.schedule.iter().take(32).map(|i| format!("{:?}", i)).collect();
+        Json::obj()
+            .set("schedule_len", self.schedule.len())
+            .set("schedule_head", Json::from(sched))
+            .set("then_policy", format!("{:?}", self.policy))
+    }
+}
+
+// per-thread reuse of the large byte buffers (expected stream, sink contents): the sweeps run hundreds of
+// thousands of cases and would otherwise spend their time in page faults
+thread_local! {
+    static BYTE_POOL: RefCell<Vec<Vec<u8>>> = RefCell::new(Vec::new());
+    static IDX_POOL: RefCell<Vec<Vec<usize>>> = RefCell::new(Vec::new());
+}
+fn pool_take() -> Vec<u8> {
+    BYTE_POOL.with(|p| p.borrow_mut().pop()).unwrap_or_default()
+}
+fn pool_give(mut v: Vec<u8>) {
+    v.clear();
+    BYTE_POOL.with(|p| {
+        let mut p = p.borrow_mut();
+        if p.len() < 8 && v.capacity() <= (8 << 20) {
+            p.push(v);
+        }
+    });
+}
+
+#[derive(Default)]
+struct SinkState {
+    data: Vec<u8>,
+    calls: u64,
+    full: u64,
+    partial: u64,
+    interrupted: u64,
+    flush_calls: u64,
+    /// (offered, accepted) ; accepted = -1 for Interrupted
+    log: Vec<(usize, i64)>,
+}
+
+impl SinkState {
+    fn new() -> Self {
+        let mut s = SinkState::default();
+        s.data = pool_take();
+        s
+    }
+}
+impl Drop for SinkState {
+    fn drop(&mut self) {
+        pool_give(std::mem::take(&mut self.data));
+    }
+}
+
+struct ScriptedWrite {
+    sched: VecDeque<Ins>,
+    policy: Policy,
+    rng: Rng,
+    consecutive_intr: u32,
+    buf_size: usize,
+    st: Rc<RefCell<SinkState>>,
+}
+
+impl ScriptedWrite {
+    fn new(spec: &SinkSpec, st: Rc<RefCell<SinkState>>, buf_size: usize) -> Self {
+        let seed = match spec.policy {
+            Policy::Random { seed, .. } => seed,
+            _ => 0,
+        };
+        ScriptedWrite {
+            sched: spec.schedule.iter().cloned().collect(),
+            policy: spec.policy.clone(),
+            rng: Rng::new(seed),
+            consecutive_intr: 0,
+            buf_size,
+            st,
+        }
+    }
+}
+
+impl Write for ScriptedWrite {
+    fn write(&mut self, buf: &[u8]) -> io::Result<usize> {
+        let mut st = self.st.borrow_mut();
+        st.calls += 1;
+        if buf.is_empty() {
+            return Ok(0);
+        }
+        let len = buf.len();
+        let ins = match self.sched.pop_front() {
+            Some(i) => i,
+            None => match self.policy {
+                Policy::All => Ins::Accept(usize::MAX),
+                Policy::AtMost(m) => Ins::Accept(m),
+                Policy::Random { intr_pct, .. } => {
+                    if self.consecutive_intr < 5 && self.rng.below(100) < intr_pct {
+                        Ins::Interrupt
+                    } else {
+                        match self.rng.below(8) {
+                            0 | 1 => Ins::Accept(1),
+                            2 => Ins::Accept(7),
+                            3 => Ins::Accept(self.buf_size / 3),
+                            4 => Ins::Accept(1 + self.rng.usize_below(len)),
+                            5 => Ins::AllBut(1),
+                            _ => Ins::Accept(usize::MAX),
+                        }
+                    }
+                }
+            },
+        };
+        let n = match ins {
+            Ins::Interrupt => {
+                self.consecutive_intr += 1;
+                st.interrupted += 1;
+                if st.log.len() < 48 {
+                    st.log.push((len, -1));
+                }
+                return Err(io::ErrorKind::Interrupted.into());
+            }
+            Ins::Accept(k) => k.max(1).min(len),
+            Ins::AllBut(k) => len.saturating_sub(k).max(1),
+        };
+        self.consecutive_intr = 0;
+        if n == len {
+            st.full += 1;
+        } else {
+            st.partial += 1;
+        }
+        if st.log.len() < 48 {
+            st.log.push((len, n as i64));
+        }
+        st.data.extend_from_slice(&buf[..n]);
+        Ok(n)
+    }
+    fn flush(&mut self) -> io::Result<()> {
+        self.st.borrow_mut().flush_calls += 1;
+        Ok(())
+    }
+}
+
+/// sink variants; 0, 2, 3, 6, 7 are "light" (few calls per flushed buffer), 1, 4, 5 can take one call per byte
+fn sink_variant(sv: u64, seed: u64, buf: usize) -> SinkSpec {
+    use Ins::*;
+    let mut rng = Rng::new(mix(&[seed, 0x51C, sv]));
+    match sv % 8 {
+        0 => SinkSpec { schedule: vec![], policy: Policy::All },
+        1 => SinkSpec { schedule: vec![Interrupt, Accept(1), Interrupt, Interrupt, Accept(3), AllBut(1)], policy: Policy::AtMost(7) },
+        2 => SinkSpec { schedule: vec![], policy: Policy::Random { seed: rng.next_u64(), intr_pct: 50 } },
+        3 => SinkSpec { schedule: vec![AllBut(1), Interrupt], policy: Policy::AtMost(buf / 3) },
+        4 => {
+            let n = rng.usize_below(21);
+            let mut schedule = Vec::new();
+            for _ in 0..n {
+                schedule.push(match rng.below(5) {
+                    0 => Interrupt,
+                    1 => Accept(1),
+                    2 => Accept(7),
+                    3 => AllBut(1 + rng.usize_below(3)),
+                    _ => Accept(1 + rng.usize_below(200)),
+                });
+            }
+            SinkSpec { schedule, policy: Policy::Random { seed: rng.next_u64(), intr_pct: rng.below(51) } }
+        }
+        5 => SinkSpec { schedule: vec![], policy: Policy::AtMost(1) },
+        6 => SinkSpec { schedule: vec![AllBut(1), Interrupt, Accept(1), AllBut(2)], policy: Policy::All },
+        _ => SinkSpec { schedule: vec![], policy: Policy::Random { seed: rng.next_u64(), intr_pct: 10 } },
+    }
+}
+
+const LIGHT_SVS: [u64; 5] = [0, 3, 6, 7, 2];
+
+// ------------------------------------------------------------------------------------------------
+// Source for the round trip: random chunk sizes, no errors, Ok(0) only at the end of the data
+
+struct ScriptedRead {
+    data: Vec<u8>,
+    pos: usize,
+    rng: Rng,
+    style: u64,
+}
+
+impl ScriptedRead {
+    fn new(data: Vec<u8>, seed: u64) -> Self {
+        let mut rng = Rng::new(seed);
+        let style = rng.below(5);
+        ScriptedRead { data, pos: 0, rng, style }
+    }
+}
+
+impl Drop for ScriptedRead {
+    fn drop(&mut self) {
+        pool_give(std::mem::take(&mut self.data));
+    }
+}
+
+impl Read for ScriptedRead {
+    fn read(&mut self, buf: &mut [u8]) -> io::Result<usize> {
+        let rem = self.data.len() - self.pos;
+        if rem == 0 || buf.is_empty() {
+            return Ok(0);
+        }
+        let want = match self.style {
+            0 => usize::MAX,
+            1 => 1,
+            2 => 1 + self.rng.usize_below(16),
+            3 => match self.rng.below(4) {
+                0 => 1,
+                1 => 1 + self.rng.usize_below(1000),
+                2 => buf.len() / 3 + 1,
+                _ => usize::MAX,
+            },
+            _ => 1 + self.rng.usize_below(5000),
+        };
+        let n = want.min(rem).min(buf.len());
+        buf[..n].copy_from_slice(&self.data[self.pos..self.pos + n]);
+        self.pos += n;
+        Ok(n)
+    }
+}
+
+// ------------------------------------------------------------------------------------------------
+// Monitors
+
+struct Bad {
+    kind: &'static str,
+    when: String,
+    step: usize,
+    pending: usize,
+}
+
+struct Monitor {
+    buf: usize,
+    exp: Vec<u8>,
+    /// offset in `exp` at which action i starts
+    starts: Vec<usize>,
+    st: Rc<RefCell<SinkState>>,
+    verified: usize,
+    writes: u64,
+    flushes: u64,
+    fpw: u64,
+    nonempty_writes: u64,
+    fill_exact: [bool; 65],
+    fill_bucket: [bool; 40],
+    internal_flush: bool,
+    calls_before: u64,
+}
+
+fn common_prefix(a: &[u8], b: &[u8], from: usize) -> usize {
+    let n = a.len().min(b.len());
+    let mut i = from.min(n);
+    while i < n && a[i] == b[i] {
+        i += 1;
+    }
+    i
+}
+
+impl Monitor {
+    fn new(buf: usize, st: Rc<RefCell<SinkState>>) -> Self {
+        Monitor {
+            buf,
+            exp: pool_take(),
+            starts: IDX_POOL.with(|p| p.borrow_mut().pop()).unwrap_or_default(),
+            st,
+            verified: 0,
+            writes: 0,
+            flushes: 0,
+            fpw: 0,
+            nonempty_writes: 0,
+            fill_exact: [false; 65],
+            fill_bucket: [false; 40],
+            internal_flush: false,
+            calls_before: 0,
+        }
+    }
+    /// before an action; `pending` read through the hook
+    fn begin(&mut self, pending: usize, is_write: bool) {
+        self.starts.push(self.exp.len());
+        if is_write {
+            let free = self.buf.saturating_sub(pending);
+            if free <= 64 {
+                self.fill_exact[free] = true;
+            } else {
+                self.fill_bucket[(usize::BITS - 1 - free.leading_zeros()) as usize] = true;
+            }
+        }
+        self.calls_before = self.st.borrow().calls;
+    }
+    fn check_prefix(&mut self) -> bool {
+        let st = self.st.borrow();
+        let n = st.data.len();
+        if n > self.exp.len() || st.data[self.verified..n] != self.exp[self.verified..n] {
+            return false;
+        }
+        self.verified = n;
+        true
+    }
+    /// after a write / write_char / out!: monitors (2) and (3); `calls` = number of public write calls made
+    fn post_write(&mut self, pending: usize, calls: u64) -> Result<(), Bad> {
+        self.writes += calls;
+        let step = self.starts.len() - 1;
+        let (n, sink_calls) = {
+            let st = self.st.borrow();
+            (st.data.len(), st.calls)
+        };
+        if sink_calls > self.calls_before {
+            self.internal_flush = true;
+        }
+        if !self.check_prefix() {
+            return Err(Bad { kind: "prefix_violation", when: format!("after write #{}", step), step, pending });
+        }
+        if n + pending != self.exp.len() {
+            return Err(Bad { kind: "conservation", when: format!("after write #{}", step), step, pending });
+        }
+        if self.exp.len() > self.starts[step] {
+            self.nonempty_writes += 1;
+            if pending == 0 {
+                self.fpw += 1;
+            }
+        }
+        Ok(())
+    }
+    /// after flush() / drop: monitor (1)
+    fn post_flush(&mut self, pending: usize, what: &str) -> Result<(), Bad> {
+        let step = self.starts.len() - 1;
+        let n = self.st.borrow().data.len();
+        if !self.check_prefix() || n != self.exp.len() {
+            return Err(Bad { kind: "final_mismatch", when: format!("after {} (action #{})", what, step), step, pending });
+        }
+        if pending != 0 {
+            return Err(Bad { kind: "conservation", when: format!("after {} (action #{}): bytes still pending although the sink is complete", what, step), step, pending });
+        }
+        Ok(())
+    }
+    fn piece_at(&self, offset: usize) -> usize {
+        self.starts.partition_point(|&s| s <= offset).saturating_sub(1)
+    }
+    fn flush_counters(&self, rep: &mut Report) {
+        rep.count("writes", self.writes);
+        rep.count("flushes", self.flushes);
+        rep.count("flush_per_write_observed", self.fpw);
+        rep.count("nonempty_write_actions", self.nonempty_writes);
+        rep.count("bytes_expected", self.exp.len() as u64);
+        rep.max("max_case_bytes", self.exp.len() as i64);
+        rep.max("max_case_actions", self.starts.len() as i64);
+        for (k, &b) in self.fill_exact.iter().enumerate() {
+            if b {
+                rep.see("fill_levels_at_write_start", k as u64);
+            }
+        }
+        for (k, &b) in self.fill_bucket.iter().enumerate() {
+            if b {
+                rep.see("fill_levels_at_write_start", 1000 + k as u64);
+            }
+        }
+        let st = self.st.borrow();
+        rep.count("sink_calls", st.calls);
+        rep.count("partial_accepts", st.partial);
+        rep.count("interrupted_calls", st.interrupted);
+        if st.full > 0 {
+            rep.see_str("sink_behaviours", "full");
+        }
+        if st.partial > 0 {
+            rep.see_str("sink_behaviours", "partial");
+        }
+        if st.interrupted > 0 {
+            rep.see_str("sink_behaviours", "interrupted");
+        }
+    }
+    /// rule: an internal flush happened in the middle of the sequence and the sink was not perfectly cooperative
+    fn nontrivial(&self) -> bool {
+        let st = self.st.borrow();
+        self.internal_flush && (st.partial > 0 || st.interrupted > 0)
+    }
+}
+
+impl Drop for Monitor {
+    fn drop(&mut self) {
+        pool_give(std::mem::take(&mut self.exp));
+        let mut st = std::mem::take(&mut self.starts);
+        st.clear();
+        IDX_POOL.with(|p| {
+            let mut p = p.borrow_mut();
+            if p.len() < 4 && st.capacity() <= (1 << 20) {
+                p.push(st);
+            }
+        });
+    }
+}
+
+fn excerpt(b: &[u8], d: usize) -> String {
+    let lo = d.saturating_sub(24).min(b.len());
+    let hi = (d + 40).min(b.len());
+    show_bytes(&b[lo..hi])
+}
+
+fn diagnose(got: &[u8], want: &[u8], d: usize) -> String {
+    if got.len() < want.len() {
+        let l = want.len() - got.len();
+        if d == got.len() {
+            return format!("lost: the sink content is a proper prefix of the expected stream, the last {} bytes are missing", l);
+        }
+        if got[d..] == want[d + l..] {
+            return format!("lost: {} contiguous bytes starting at offset {} are missing, the rest follows in order", l, d);
+        }
+        return format!("undetermined (sink is {} bytes short and differs from offset {})", l, d);
+    }
+    if got.len() > want.len() {
+        let l = got.len() - want.len();
+        if d + l <= got.len() && got[d + l..] == want[d..] {
+            if d >= l && got[d..d + l] == want[d - l..d] {
+                return format!("duplicated: the {} bytes before offset {} were delivered twice", l, d);
+            }
+            return format!("inserted: {} bytes at offset {} that do not belong there, the rest follows in order", l, d);
+        }
+        if d == want.len() {
+            return format!("extra: {} bytes beyond the end of the expected stream", l);
+        }
+        return format!("undetermined (sink is {} bytes too long and differs from offset {})", l, d);
+    }
+    if d == got.len() {
+        return "equal".into();
+    }
+    let mut hg = [0u64; 256];
+    let mut hw = [0u64; 256];
+    for &b in &got[d..] {
+        hg[b as usize] += 1;
+    }
+    for &b in &want[d..] {
+        hw[b as usize] += 1;
+    }
+    if hg == hw {
+        format!("reordered: same length and same multiset of bytes, order differs from offset {}", d)
+    } else {
+        format!("corrupted: same length, different bytes from offset {}", d)
+    }
+}
+
+/// builds the witness of a failed monitor
+fn bad_detail(bad: &Bad, mon: &Monitor, sink: &SinkSpec, npieces: usize, describe: &dyn Fn(usize) -> String) -> (Json, usize) {
+    let st = mon.st.borrow();
+    let got = &st.data;
+    let want = &mon.exp;
+    let d = common_prefix(got, want, 0);
+    let conservation = bad.kind == "conservation";
+    // conservation is checked after every action, so the action at which it fails is the culprit; the other
+    // monitors are located through the first differing offset
+    let pidx = if conservation { bad.step } else { mon.piece_at(d.min(want.len().saturating_sub(1))) };
+    let diagnosis = if conservation {
+        let have = got.len() + bad.pending;
+        format!(
+            "sink {} + pending {} = {} but {} bytes have been written so far: {} bytes {} during action #{} (the equation held after the previous action){}",
+            got.len(),
+            bad.pending,
+            have,
+            want.len(),
+            have.abs_diff(want.len()),
+            if have < want.len() { "lost" } else { "too many (duplicated or invented)" },
+            bad.step,
+            if d < got.len() { format!("; in addition the sink differs from the expected stream at offset {}", d) } else { String::new() }
+        )
+    } else {
+        diagnose(got, want, d)
+    };
+    let head: Vec<String> = (0..npieces.min(8)).map(|i| format!("#{} {}", i, describe(i))).collect();
+    let lo = pidx.saturating_sub(2);
+    let hi = (pidx + 3).min(npieces);
+    let near: Vec<String> = (lo..hi).map(|i| format!("#{} {}", i, describe(i))).collect();
+    let log: Vec<String> = st.log.iter().map(|&(o, a)| if a < 0 { format!("{}->Interrupted", o) } else { format!("{}->{}", o, a) }).collect();
+    let j = Json::obj()
+        .set("profile", PROFILE)
+        .set("monitor", bad.kind)
+        .set("when", bad.when.as_str())
+        .set("detected_at_action", bad.step)
+        .set("buf_size", mon.buf)
+        .set("pieces_total", npieces)
+        .set("pieces_head", Json::from(head))
+        .set("pieces_near_difference", Json::from(near))
+        .set("sink_len", got.len())
+        .set("pending_reported_by_hook", bad.pending)
+        .set("expected_len", want.len())
+        .set(if conservation { "sink_equals_expected_up_to" } else { "first_differing_offset" }, d)
+        .set(if conservation { "culprit_action_index" } else { "piece_index_at_offset" }, pidx)
+        .set("piece_start_offset", mon.starts.get(pidx).cloned().unwrap_or(0))
+        .set("got_excerpt", excerpt(got, d))
+        .set("want_excerpt", excerpt(want, d))
+        .set("diagnosis", diagnosis)
+        .set("sink", sink.to_json())
+        .set("sink_calls", st.calls)
+        .set("sink_calls_log_head", Json::from(log));
+    (j, pidx)
+}
+
+// ------------------------------------------------------------------------------------------------
+// Oracle rendering (independent of the library): std Display for integers, verbatim strings, single spaces between
+// the elements of vectors and tuples.
+
+trait Ren {
+    fn ren(&self, out: &mut Vec<u8>);
+}
+
+impl Ren for String {
+    fn ren(&self, out: &mut Vec<u8>) {
+        out.extend_from_slice(self.as_bytes());
+    }
+}
+
+impl<T: Ren> Ren for Vec<T> {
+    fn ren(&self, out: &mut Vec<u8>) {
+        for (i, x) in self.iter().enumerate() {
+            if i > 0 {
+                out.push(b' ');
+            }
+            x.ren(out);
+        }
+    }
+}
+
+macro_rules! ren_tuple {
+    ($($t:ident),*) => {
+        impl<$($t: Ren),*> Ren for ($($t,)*) {
+            #[allow(non_snake_case, unused_assignments)]
+            fn ren(&self, out: &mut Vec<u8>) {
+                let ($($t,)*) = self;
+                let mut first = true;
+                $(
+                    if !first { out.push(b' '); }
+                    first = false;
+                    $t.ren(out);
+                )*
+            }
+        }
+    };
+}
+ren_tuple!(A, B);
+ren_tuple!(A, B, C);
+ren_tuple!(A, B, C, D);
+ren_tuple!(A, B, C, D, E);
+ren_tuple!(A, B, C, D, E, F);
+ren_tuple!(A, B, C, D, E, F, G);
+ren_tuple!(A, B, C, D, E, F, G, H);
+
+// ------------------------------------------------------------------------------------------------
+// Value generation
+
+struct GenCx<'a> {
+    rng: &'a mut Rng,
+    /// round-trip compatible: strings are non-empty tokens without whitespace
+    rt: bool,
+    /// sequence number of the piece being generated (embedded in strings)
+    seq: usize,
+}
+
+trait Gen {
+    fn gen(g: &mut GenCx) -> Self;
+}
+
+trait IntT: Writable + Readable + Ren + Display + Debug + PartialEq + Copy + 'static {
+    const NAME: &'static str;
+    const BITS: u32;
+    fn from_bits(raw: u128) -> Self;
+    fn conv(neg: bool, mag: u128) -> Option<Self>;
+}
+
+fn rand128(rng: &mut Rng) -> u128 {
+    ((rng.next_u64() as u128) << 64) | rng.next_u64() as u128
+}
+
+fn gen_int<T: IntT>(rng: &mut Rng) -> T {
+    let top = 1u128 << (T::BITS - 1);
+    if rng.chance(1, 12) {
+        return T::from_bits(match rng.below(7) {
+            0 => 0,
+            1 => 1,
+            2 => u128::MAX,
+            3 => top,
+            4 => top - 1,
+            5 => top + 1,
+            _ => u128::MAX - 1,
+        });
+    }
+    let b = rng.below(T::BITS as u64 + 1) as u32;
+    let mut raw = if b == 0 { 0 } else { rand128(rng) >> (128 - b) };
+    if rng.chance(1, 2) {
+        raw = raw.wrapping_neg();
+    }
+    T::from_bits(raw)
+}
+
+/// 10^k, 10^k+-1, 2^k, 2^k+-1, their negations, MIN, MIN+1, MAX, MAX-1, 0, +-1 - whatever fits the type
+fn specials<T: IntT>() -> Vec<T> {
+    let mut mags: Vec<u128> = vec![0, 1, 2, u128::MAX, u128::MAX - 1];
+    let mut p = 1u128;
+    for _ in 0..=38 {
+        mags.extend_from_slice(&[p - 1, p, p + 1]);
+        p = p.saturating_mul(10);
+    }
+    for k in 0..128 {
+        let q = 1u128 << k;
+        mags.extend_from_slice(&[q - 1, q, q.wrapping_add(1)]);
+    }
+    let mut out = Vec::new();
+    for &m in &mags {
+        for neg in [false, true] {
+            if let Some(v) = T::conv(neg, m) {
+                out.push(v);
+            }
+        }
+    }
+    let top = 1u128 << (T::BITS - 1);
+    for raw in [top, top + 1, top - 1, top - 2, u128::MAX, u128::MAX - 1, 0, 1] {
+        out.push(T::from_bits(raw));
+    }
+    out
+}
+
+macro_rules! int_impls {
+    ($($t:ty),*) => {$(
+        impl Ren for $t {
+            fn ren(&self, out: &mut Vec<u8>) {
+                write!(out, "{}", self).unwrap();
+            }
+        }
+        impl IntT for $t {
+            const NAME: &'static str = stringify!($t);
+            const BITS: u32 = <$t>::BITS;
+            fn from_bits(raw: u128) -> Self {
+                raw as $t
+            }
+            fn conv(neg: bool, mag: u128) -> Option<Self> {
+                if !neg {
+                    <$t>::try_from(mag).ok()
+                } else if mag == 0 {
+                    Some(0)
+                } else if mag <= (1u128 << 127) {
+                    <$t>::try_from((mag as i128).wrapping_neg()).ok()
+                } else {
+                    None
+                }
+            }
+        }
+        impl Gen for $t {
+            fn gen(g: &mut GenCx) -> Self {
+                gen_int::<$t>(g.rng)
+            }
+        }
+    )*};
+}
+int_impls!(i8, u8, i16, u16, i32, u32, i64, u64, i128, u128, isize, usize);
+
+const INT_TYPES: [&str; 12] = ["i8", "u8", "i16", "u16", "i32", "u32", "i64", "u64", "i128", "u128", "isize", "usize"];
+
+const ALPHA_RT: &[u8] = b"abcdefghijklmnopqrstuvwxyzABCDEFGHIJKLMNOPQRSTUVWXYZ0123456789.,-=_/!@#$%^&*()[]{}~+";
+const ALPHA_ANY: &[u8] = b"abcdefghijklmnopqrstuvwxyzABCDEFGHIJKLMNOPQRSTUVWXYZ0123456789.,-=_/!@#$%^&*()[]{}~+      \n\t\"'\\`";
+
+/// ASCII string of exactly `len` bytes: "<seq>:" then pseudo-random payload with position markers "<offset>"
+/// every 64 bytes (so that a lost or repeated block is visible in an excerpt)
+fn tagged(seq: usize, len: usize, rt: bool, rng: &mut Rng) -> String {
+    let alpha = if rt { ALPHA_RT } else { ALPHA_ANY };
+    let mut s: Vec<u8> = Vec::with_capacity(len + 24);
+    s.extend_from_slice(format!("{}:", seq).as_bytes());
+    let mut x = rng.next_u64() | 1;
+    let mut next_marker = 64;
+    while s.len() < len {
+        if s.len() >= next_marker {
+            s.extend_from_slice(format!("<{}>", s.len()).as_bytes());
+            next_marker += 64;
+            continue;
+        }
+        x = x.wrapping_mul(6364136223846793005).wrapping_add(1442695040888963407);
+        s.push(alpha[((x >> 33) % alpha.len() as u64) as usize]);
+    }
+    s.truncate(len);
+    String::from_utf8(s).unwrap()
+}
+
+impl Gen for String {
+    fn gen(g: &mut GenCx) -> Self {
+        let lo = if g.rt { 1 } else { 0 };
+        let len = if g.rng.chance(1, 20) { g.rng.range_usize(15, 300) } else { g.rng.range_usize(lo, 14) };
+        tagged(g.seq, len, g.rt, g.rng)
+    }
+}
+
+fn gen_vec_len(rng: &mut Rng) -> usize {
+    match rng.below(20) {
+        0 | 1 => 0,
+        2..=4 => 1,
+        5..=13 => rng.range_usize(2, 8),
+        14..=18 => rng.range_usize(9, 60),
+        _ => rng.range_usize(61, 2000),
+    }
+}
+
+impl<T: Gen> Gen for Vec<T> {
+    fn gen(g: &mut GenCx) -> Self {
+        let n = gen_vec_len(g.rng);
+        (0..n).map(|_| T::gen(g)).collect()
+    }
+}
+
+macro_rules! gen_tuple {
+    ($($t:ident),*) => {
+        impl<$($t: Gen),*> Gen for ($($t,)*) {
+            fn gen(g: &mut GenCx) -> Self {
+                ($($t::gen(g),)*)
+            }
+        }
+    };
+}
+gen_tuple!(A, B);
+gen_tuple!(A, B, C);
+gen_tuple!(A, B, C, D);
+gen_tuple!(A, B, C, D, E);
+gen_tuple!(A, B, C, D, E, F);
+gen_tuple!(A, B, C, D, E, F, G);
+gen_tuple!(A, B, C, D, E, F, G, H);
+
+// ------------------------------------------------------------------------------------------------
+// Pieces
+
+fn trunc(s: String, n: usize) -> String {
+    if s.len() <= n {
+        s
+    } else {
+        let mut cut = n;
+        while !s.is_char_boundary(cut) {
+            cut -= 1;
+        }
+        format!("{}...[{} bytes]", &s[..cut], s.len())
+    }
+}
+
+trait PieceT {
+    fn kind(&self) -> &'static str;
+    /// oracle rendering
+    fn render(&self, out: &mut Vec<u8>);
+    /// one public `writer.write(&value)` call
+    fn write_to(&self, w: &mut Writer);
+    /// reads the value back with the same type; Ok(number of values) or Err(description)
+    fn read_check(&self, r: &mut Reader) -> Result<u64, String>;
+    fn describe(&self) -> String;
+}
+
+/// a value whose type is both Writable and Readable (integers, single-token strings, tuples of those)
+struct Plain<T> {
+    v: T,
+    kind: &'static str,
+}
+impl<T: Writable + Readable + Ren + PartialEq + Debug> PieceT for Plain<T> {
+    fn kind(&self) -> &'static str {
+        self.kind
+    }
+    fn render(&self, out: &mut Vec<u8>) {
+        self.v.ren(out);
+    }
+    fn write_to(&self, w: &mut Writer) {
+        w.write(&self.v);
+    }
+    fn read_check(&self, r: &mut Reader) -> Result<u64, String> {
+        let got: T = lib!(r.read::<T>());
+        if got == self.v {
+            Ok(1)
+        } else {
+            Err(format!("read back {} but wrote {}", trunc(format!("{:?}", got), 200), trunc(format!("{:?}", self.v), 200)))
+        }
+    }
+    fn describe(&self) -> String {
+        format!("{} {}", self.kind, trunc(format!("{:?}", self.v), 70))
+    }
+}
+
+/// Vec<T>, read back through read_vec::<T>(len)
+struct PVec<T> {
+    v: Vec<T>,
+    kind: &'static str,
+}
+impl<T: Writable + Readable + Ren + PartialEq + Debug> PieceT for PVec<T> {
+    fn kind(&self) -> &'static str {
+        self.kind
+    }
+    fn render(&self, out: &mut Vec<u8>) {
+        self.v.ren(out);
+    }
+    fn write_to(&self, w: &mut Writer) {
+        w.write(&self.v);
+    }
+    fn read_check(&self, r: &mut Reader) -> Result<u64, String> {
+        let got: Vec<T> = lib!(r.read_vec::<T>(self.v.len()));
+        if got == self.v {
+            Ok(got.len() as u64)
+        } else {
+            let i = got.iter().zip(self.v.iter()).position(|(a, b)| a != b).unwrap_or(got.len().min(self.v.len()));
+            Err(format!("read_vec({}) differs at element {}: read {} but wrote {}", self.v.len(), i, trunc(format!("{:?}", got.get(i)), 120), trunc(format!("{:?}", self.v.get(i)), 120)))
+        }
+    }
+    fn describe(&self) -> String {
+        format!("{} len {} {}", self.kind, self.v.len(), trunc(format!("{:?}", self.v), 70))
+    }
+}
+
+fn read_tokens(s: &str, r: &mut Reader) -> Result<u64, String> {
+    let mut n = 0;
+    for tok in s.split_ascii_whitespace() {
+        let got: String = lib!(r.read::<String>());
+        if got != tok {
+            let d = common_prefix(got.as_bytes(), tok.as_bytes(), 0);
+            return Err(format!(
+                "string token {}: read {} bytes, wrote {} bytes, first difference at byte {}: read ..{} wrote ..{}",
+                n,
+                got.len(),
+                tok.len(),
+                d,
+                excerpt(got.as_bytes(), d),
+                excerpt(tok.as_bytes(), d)
+            ));
+        }
+        n += 1;
+    }
+    Ok(n)
+}
+
+/// written as `&str`; read back token by token
+struct StrRef {
+    s: String,
+}
+impl PieceT for StrRef {
+    fn kind(&self) -> &'static str {
+        "&str"
+    }
+    fn render(&self, out: &mut Vec<u8>) {
+        out.extend_from_slice(self.s.as_bytes());
+    }
+    fn write_to(&self, w: &mut Writer) {
+        let r: &str = self.s.as_str();
+        w.write(&r);
+    }
+    fn read_check(&self, r: &mut Reader) -> Result<u64, String> {
+        read_tokens(&self.s, r)
+    }
+    fn describe(&self) -> String {
+        format!("&str len {} {}", self.s.len(), trunc(format!("{:?}", self.s), 50))
+    }
+}
+
+/// written as `String`
+struct StrOwned {
+    s: String,
+}
+impl PieceT for StrOwned {
+    fn kind(&self) -> &'static str {
+        "String"
+    }
+    fn render(&self, out: &mut Vec<u8>) {
+        out.extend_from_slice(self.s.as_bytes());
+    }
+    fn write_to(&self, w: &mut Writer) {
+        w.write(&self.s);
+    }
+    fn read_check(&self, r: &mut Reader) -> Result<u64, String> {
+        read_tokens(&self.s, r)
+    }
+    fn describe(&self) -> String {
+        format!("String len {} {}", self.s.len(), trunc(format!("{:?}", self.s), 50))
+    }
+}
+
+struct VecVec {
+    v: Vec<Vec<i32>>,
+}
+impl PieceT for VecVec {
+    fn kind(&self) -> &'static str {
+        "Vec<Vec<i32>>"
+    }
+    fn render(&self, out: &mut Vec<u8>) {
+        self.v.ren(out);
+    }
+    fn write_to(&self, w: &mut Writer) {
+        w.write(&self.v);
+    }
+    fn read_check(&self, r: &mut Reader) -> Result<u64, String> {
+        let mut n = 0;
+        for (i, inner) in self.v.iter().enumerate() {
+            let got: Vec<i32> = lib!(r.read_vec::<i32>(inner.len()));
+            if &got != inner {
+                return Err(format!("inner vector {}: read {} wrote {}", i, trunc(format!("{:?}", got), 120), trunc(format!("{:?}", inner), 120)));
+            }
+            n += got.len() as u64;
+        }
+        Ok(n)
+    }
+    fn describe(&self) -> String {
+        format!("Vec<Vec<i32>> len {} {}", self.v.len(), trunc(format!("{:?}", self.v), 70))
+    }
+}
+
+struct TupVec {
+    v: (u8, Vec<i64>, String),
+}
+impl PieceT for TupVec {
+    fn kind(&self) -> &'static str {
+        "(u8,Vec<i64>,String)"
+    }
+    fn render(&self, out: &mut Vec<u8>) {
+        self.v.ren(out);
+    }
+    fn write_to(&self, w: &mut Writer) {
+        w.write(&self.v);
+    }
+    fn read_check(&self, r: &mut Reader) -> Result<u64, String> {
+        let a: u8 = lib!(r.read::<u8>());
+        let b: Vec<i64> = lib!(r.read_vec::<i64>(self.v.1.len()));
+        let c: String = lib!(r.read::<String>());
+        let got = (a, b, c);
+        if got == self.v {
+            Ok(2 + got.1.len() as u64)
+        } else {
+            Err(format!("read {} wrote {}", trunc(format!("{:?}", got), 160), trunc(format!("{:?}", self.v), 160)))
+        }
+    }
+    fn describe(&self) -> String {
+        format!("(u8,Vec<i64>,String) {}", trunc(format!("{:?}", self.v), 70))
+    }
+}
+
+/// lets a dynamically chosen piece go through the `out!` / `outln!` macros (which need a `Writable` expression);
+/// the inner call is the ordinary `writer.write(&value)` of the real type
+struct Dyn<'p>(&'p dyn PieceT);
+impl Writable for Dyn<'_> {
+    fn write(&self, writer: &mut Writer) {
+        self.0.write_to(writer);
+    }
+}
+
+enum Action {
+    W(Box<dyn PieceT>),
+    Ch(u8),
+    Flush,
+    /// out!(..) / outln!(..) with 0..=4 arguments (0 only with ln)
+    Out(Vec<Box<dyn PieceT>>, bool),
+}
+
+impl Action {
+    fn describe(&self) -> String {
+        match self {
+            Action::W(p) => format!("write {}", p.describe()),
+            Action::Ch(c) => format!("write_char {:?}", *c as char),
+            Action::Flush => "flush()".into(),
+            Action::Out(ps, ln) => format!("{}({})", if *ln { "outln!" } else { "out!" }, ps.iter().map(|p| p.describe()).collect::<Vec<_>>().join(", ")),
+        }
+    }
+    fn render(&self, out: &mut Vec<u8>) {
+        match self {
+            Action::W(p) => p.render(out),
+            Action::Ch(c) => out.push(*c),
+            Action::Flush => {}
+            Action::Out(ps, ln) => {
+                for (j, p) in ps.iter().enumerate() {
+                    if j > 0 {
+                        out.push(b' ');
+                    }
+                    p.render(out);
+                }
+                if *ln {
+                    out.push(b'\n');
+                }
+            }
+        }
+    }
+}
+
+type Maker = fn(&mut GenCx) -> Box<dyn PieceT>;
+
+macro_rules! plain {
+    ($t:ty, $k:expr) => {{
+        fn m(g: &mut GenCx) -> Box<dyn PieceT> {
+            Box::new(Plain::<$t> { v: <$t as Gen>::gen(g), kind: $k })
+        }
+        m as Maker
+    }};
+}
+macro_rules! pvec {
+    ($t:ty, $k:expr) => {{
+        fn m(g: &mut GenCx) -> Box<dyn PieceT> {
+            Box::new(PVec::<$t> { v: <Vec<$t> as Gen>::gen(g), kind: $k })
+        }
+        m as Maker
+    }};
+}
+
+fn mk_str(g: &mut GenCx) -> Box<dyn PieceT> {
+    let len = g.rng.range_usize(0, 24);
+    Box::new(StrRef { s: tagged(g.seq, len, g.rt, g.rng) })
+}
+fn mk_string(g: &mut GenCx) -> Box<dyn PieceT> {
+    let len = g.rng.range_usize(0, 24);
+    Box::new(StrOwned { s: tagged(g.seq, len, g.rt, g.rng) })
+}
+fn mk_vecvec(g: &mut GenCx) -> Box<dyn PieceT> {
+    let n = g.rng.range_usize(0, 6);
+    let v = (0..n)
+        .map(|_| {
+            let m = g.rng.range_usize(0, 5);
+            (0..m).map(|_| i32::gen(g)).collect()
+        })
+        .collect();
+    Box::new(VecVec { v })
+}
+fn mk_tupvec(g: &mut GenCx) -> Box<dyn PieceT> {
+    Box::new(TupVec { v: Gen::gen(g) })
+}
+
+/// (maker, weight in random sequences, weight in compound cases)
+fn makers() -> Vec<(Maker, u32, u32)> {
+    vec![
+        (plain!(i8, "i8"), 3, 1),
+        (plain!(u8, "u8"), 3, 1),
+        (plain!(i16, "i16"), 3, 1),
+        (plain!(u16, "u16"), 3, 1),
+        (plain!(i32, "i32"), 3, 1),
+        (plain!(u32, "u32"), 3, 1),
+        (plain!(i64, "i64"), 3, 1),
+        (plain!(u64, "u64"), 3, 1),
+        (plain!(i128, "i128"), 3, 1),
+        (plain!(u128, "u128"), 3, 1),
+        (plain!(isize, "isize"), 3, 1),
+        (plain!(usize, "usize"), 3, 1),
+        (mk_str as Maker, 8, 2),
+        (mk_string as Maker, 5, 2),
+        (plain!((i32, u64), "tuple2"), 2, 5),
+        (plain!((String, i8), "tuple2"), 2, 5),
+        (plain!((u8, String, i8), "tuple3"), 2, 6),
+        (plain!((i64, i64, u16, i128), "tuple4"), 2, 6),
+        (plain!((u8, i16, u32, i64, u128), "tuple5"), 2, 6),
+        (plain!((String, i8, u16, i32, u64, i128), "tuple6"), 2, 6),
+        (plain!((isize, usize, i8, u8, String, i64, u32), "tuple7"), 2, 6),
+        (plain!((i8, u8, i16, u16, i32, u32, i64, u64), "tuple8"), 2, 5),
+        (plain!((i128, u128, isize, usize, String, String, i8, u64), "tuple8"), 2, 5),
+        (plain!(((i32, i32), u8), "tuple_nested"), 1, 4),
+        (pvec!(i64, "Vec<i64>"), 3, 6),
+        (pvec!(u8, "Vec<u8>"), 2, 5),
+        (pvec!(i8, "Vec<i8>"), 1, 3),
+        (pvec!(u128, "Vec<u128>"), 1, 4),
+        (pvec!(usize, "Vec<usize>"), 1, 3),
+        (pvec!(String, "Vec<String>"), 2, 6),
+        (pvec!((i32, u64), "Vec<(i32,u64)>"), 2, 6),
+        (pvec!((u8, String, i128), "Vec<(u8,String,i128)>"), 1, 4),
+        (mk_vecvec as Maker, 1, 4),
+        (mk_tupvec as Maker, 1, 4),
+    ]
+}
+
+fn pick_maker(rng: &mut Rng, mk: &[(Maker, u32, u32)], compound: bool) -> Maker {
+    let w: Vec<u32> = mk.iter().map(|m| if compound { m.2 } else { m.1 }).collect();
+    mk[rng.weighted(&w)].0
+}
+
+// ------------------------------------------------------------------------------------------------
+// Case construction. A case = one writer lifetime; it is a pure function of (mode, id, base seed, BUF).
+
+struct CaseSpec {
+    mode: &'static str,
+    id: String,
+    base_seed: u64,
+    actions: Vec<Action>,
+    sink: SinkSpec,
+    /// explicit flush() before the drop (otherwise the Drop impl has to deliver the tail)
+    final_flush: bool,
+    /// read the result back through Reader
+    rt: bool,
+    rt_seed: u64,
+    /// fill-level targeting: the first action is a filler of BUF-k bytes
+    fill_k: Option<usize>,
+}
+
+fn case_seed(base: u64, mode: &str, id: &str) -> u64 {
+    mix(&[base, hash_str(mode), hash_str(id)])
+}
+
+const FILL_KINDS: [&str; 14] =
+    ["u8", "i64::MIN", "u128::MAX", "i128::MIN", "char", "tuple3", "vec5", "str70", "strBUF", "str2BUF+3", "outln3", "empty_vec", "String70", "vec5_String"];
+
+fn build_fill(k: usize, kind: usize, sv: u64, base: u64, buf: usize) -> CaseSpec {
+    let id = format!("{}:{}:{}", k, kind, sv);
+    let seed = case_seed(base, "fill", &id);
+    let mut rng = Rng::new(seed);
+    let mut filler = tagged(0, buf - k - 1, true, &mut rng);
+    filler.push(' ');
+    let mut actions = vec![Action::W(Box::new(StrRef { s: filler }))];
+    let mut g = GenCx { rng: &mut rng, rt: true, seq: 1 };
+    let a = match kind {
+        0 => Action::W(Box::new(Plain::<u8> { v: u8::gen(&mut g), kind: "u8" })),
+        1 => Action::W(Box::new(Plain::<i64> { v: i64::MIN, kind: "i64" })),
+        2 => Action::W(Box::new(Plain::<u128> { v: u128::MAX, kind: "u128" })),
+        3 => Action::W(Box::new(Plain::<i128> { v: i128::MIN, kind: "i128" })),
+        4 => Action::Ch(b'x'),
+        5 => Action::W(Box::new(Plain::<(u8, String, i8)> { v: (200, "1:hello".to_string(), -111), kind: "tuple3" })),
+        6 => Action::W(Box::new(PVec::<i64> { v: (0..5).map(|_| i64::gen(&mut g)).collect(), kind: "Vec<i64>" })),
+        7 => Action::W(Box::new(StrRef { s: tagged(1, 70, true, g.rng) })),
+        8 => Action::W(Box::new(StrRef { s: tagged(1, buf, true, g.rng) })),
+        9 => Action::W(Box::new(StrRef { s: tagged(1, 2 * buf + 3, true, g.rng) })),
+        10 => Action::Out(
+            vec![
+                Box::new(Plain::<u8> { v: u8::gen(&mut g), kind: "u8" }),
+                Box::new(StrOwned { s: tagged(1, 9, true, g.rng) }),
+                Box::new(Plain::<i64> { v: i64::gen(&mut g), kind: "i64" }),
+            ],
+            true,
+        ),
+        11 => Action::W(Box::new(PVec::<i64> { v: vec![], kind: "Vec<i64>" })),
+        12 => Action::W(Box::new(StrOwned { s: tagged(1, 70, true, g.rng) })),
+        13 => Action::W(Box::new(PVec::<String> { v: (0..5).map(|_| String::gen(&mut g)).collect(), kind: "Vec<String>" })),
+        _ => panic!("unknown fill kind {}", kind),
+    };
+    actions.push(a);
+    actions.push(Action::Flush);
+    actions.push(Action::Ch(b'\n'));
+    CaseSpec { mode: "fill", id, base_seed: base, actions, sink: sink_variant(sv, seed, buf), final_flush: false, rt: true, rt_seed: mix(&[seed, 7]), fill_k: Some(k) }
+}
+
+fn string_lens(buf: usize) -> Vec<usize> {
+    vec![0, 1, 2, 70, buf / 2, buf - 1, buf, buf + 1, 2 * buf, 2 * buf + 3, 3 * buf + 7]
+}
+fn string_prefills(buf: usize) -> Vec<usize> {
+    vec![0, 1, buf / 2, buf - 70, buf - 1, buf]
+}
+
+fn build_strings(li: usize, owned: bool, pi: usize, sv: u64, base: u64, buf: usize) -> CaseSpec {
+    let id = format!("{}:{}:{}:{}", li, owned as u8, pi, sv);
+    let seed = case_seed(base, "strings", &id);
+    let mut rng = Rng::new(seed);
+    let len = string_lens(buf)[li];
+    let pre = string_prefills(buf)[pi];
+    let mut actions = Vec::new();
+    let mk = |seq: usize, len: usize, owned: bool, rng: &mut Rng| -> Action {
+        let s = tagged(seq, len, false, rng);
+        if owned {
+            Action::W(Box::new(StrOwned { s }))
+        } else {
+            Action::W(Box::new(StrRef { s }))
+        }
+    };
+    if pre > 0 {
+        actions.push(mk(0, pre, !owned, &mut rng));
+    }
+    let n = actions.len();
+    actions.push(mk(n, len, owned, &mut rng));
+    if rng.chance(1, 2) {
+        actions.push(Action::Flush);
+    }
+    let n = actions.len();
+    let l2 = rng.range_usize(0, 100);
+    actions.push(mk(n, l2, owned, &mut rng));
+    actions.push(Action::Ch(b'.'));
+    CaseSpec { mode: "strings", id, base_seed: base, actions, sink: sink_variant(sv, seed, buf), final_flush: sv % 2 == 0, rt: false, rt_seed: 0, fill_k: None }
+}
+
+fn sep_action(rng: &mut Rng) -> Action {
+    Action::Ch(if rng.chance(1, 4) { b'\n' } else { b' ' })
+}
+
+fn gen_out(g: &mut GenCx, mk: &[(Maker, u32, u32)]) -> Action {
+    let ln = g.rng.chance(1, 2);
+    let n = if ln { g.rng.range_usize(0, 4) } else { g.rng.range_usize(1, 4) };
+    let ps = (0..n)
+        .map(|_| {
+            let compound = g.rng.chance(1, 3);
+            pick_maker(g.rng, mk, compound)(g)
+        })
+        .collect();
+    Action::Out(ps, ln)
+}
+
+/// optional filler that brings the buffer close to its boundary (release) before the interesting pieces
+fn maybe_prefill(actions: &mut Vec<Action>, rng: &mut Rng, rt: bool, buf: usize) {
+    if rng.chance(1, 3) {
+        let k = rng.range_usize(1, 90);
+        let mut s = tagged(0, buf - k - 1, rt, rng);
+        s.push(if rt { ' ' } else { '|' });
+        actions.push(Action::W(Box::new(StrRef { s })));
+    }
+}
+
+fn build_compound(i: u64, base: u64, buf: usize) -> CaseSpec {
+    let id = format!("{}", i);
+    let seed = case_seed(base, "compound", &id);
+    let mut rng = Rng::new(seed);
+    let mk = makers();
+    let rt = rng.chance(4, 5);
+    let mut actions = Vec::new();
+    maybe_prefill(&mut actions, &mut rng, rt, buf);
+    let n = rng.range_usize(1, 12);
+    for _ in 0..n {
+        let seq = actions.len();
+        let mut g = GenCx { rng: &mut rng, rt, seq };
+        let a = if g.rng.chance(1, 5) { gen_out(&mut g, &mk) } else { Action::W(pick_maker(g.rng, &mk, true)(&mut g)) };
+        let ends_ln = matches!(a, Action::Out(_, true));
+        actions.push(a);
+        if rt && !ends_ln {
+            actions.push(sep_action(&mut rng));
+        }
+        if rng.chance(1, 20) {
+            actions.push(Action::Flush);
+        }
+    }
+    if rt {
+        actions.push(Action::Ch(b'\n'));
+    }
+    let sv = rng.below(8);
+    CaseSpec { mode: "compound", id, base_seed: base, actions, sink: sink_variant(sv, seed, buf), final_flush: rng.chance(1, 2), rt, rt_seed: mix(&[seed, 7]), fill_k: None }
+}
+
+fn build_random(i: u64, base: u64, buf: usize) -> CaseSpec {
+    let id = format!("{}", i);
+    let seed = case_seed(base, "random", &id);
+    let mut rng = Rng::new(seed);
+    let mk = makers();
+    let rt = rng.chance(7, 10);
+    let n = rng.range_usize(50, 400);
+    let target = match rng.below(5) {
+        0 => rng.range_usize(200, buf / 2),
+        1 => rng.range_usize(buf / 2, 2 * buf),
+        _ => rng.range_usize(buf, 5 * buf),
+    };
+    let mut actions = Vec::new();
+    let mut scratch = Vec::new();
+    maybe_prefill(&mut actions, &mut rng, rt, buf);
+    for a in &actions {
+        a.render(&mut scratch);
+    }
+    for made in 0..n {
+        let seq = actions.len();
+        let deficit = target.saturating_sub(scratch.len());
+        let per = deficit / (n - made);
+        let a = if per > 40 && rng.chance(1, 4) {
+            // bulk piece
+            let len = rng.range_usize(1, (8 * per).min(2 * buf + 10));
+            match rng.below(4) {
+                0 => Action::W(Box::new(StrOwned { s: tagged(seq, len, rt, &mut rng) })),
+                1 => {
+                    let mut g = GenCx { rng: &mut rng, rt, seq };
+                    Action::W(Box::new(PVec::<i64> { v: (0..len / 12 + 1).map(|_| i64::gen(&mut g)).collect(), kind: "Vec<i64>" }))
+                }
+                _ => Action::W(Box::new(StrRef { s: tagged(seq, len, rt, &mut rng) })),
+            }
+        } else {
+            let mut g = GenCx { rng: &mut rng, rt, seq };
+            match g.rng.below(100) {
+                0..=7 => gen_out(&mut g, &mk),
+                8..=15 => {
+                    let c = if rt { *g.rng.pick(ALPHA_RT) } else { *g.rng.pick(ALPHA_ANY) };
+                    Action::Ch(c)
+                }
+                _ => Action::W(pick_maker(g.rng, &mk, false)(&mut g)),
+            }
+        };
+        a.render(&mut scratch);
+        let ends_ln = matches!(a, Action::Out(_, true));
+        actions.push(a);
+        if rt && !ends_ln {
+            let s = sep_action(&mut rng);
+            s.render(&mut scratch);
+            actions.push(s);
+        }
+        if rng.chance(3, 100) {
+            actions.push(Action::Flush);
+            if rng.chance(1, 5) {
+                actions.push(Action::Flush);
+            }
+        }
+    }
+    if rt {
+        actions.push(Action::Ch(b'\n'));
+    }
+    let sv = rng.below(8);
+    CaseSpec { mode: "random", id, base_seed: base, actions, sink: sink_variant(sv, seed, buf), final_flush: rng.chance(1, 2), rt, rt_seed: mix(&[seed, 7]), fill_k: None }
+}
+
+const LIFE_SCENARIOS: [&str; 11] = [
+    "drop_without_flush_small",
+    "drop_without_flush_big",
+    "flush_on_empty_writer",
+    "two_flushes_in_a_row",
+    "flush_write_flush_flush_write",
+    "only_empty_pieces",
+    "drop_immediately",
+    "flush_after_every_write",
+    "exactly_buf_then_drop",
+    "exactly_buf_plus_char_then_drop",
+    "flush_empty_then_write_then_drop",
+];
+
+fn build_lifecycle(sc: usize, sv: u64, base: u64, buf: usize) -> CaseSpec {
+    let id = format!("{}:{}", sc, sv);
+    let seed = case_seed(base, "lifecycle", &id);
+    let mut rng = Rng::new(seed);
+    let mk = makers();
+    let mut actions: Vec<Action> = Vec::new();
+    let mut final_flush = false;
+    let mut rt = true;
+    // a separated small piece
+    macro_rules! small {
+        () => {{
+            let seq = actions.len();
+            let mut g = GenCx { rng: &mut rng, rt: true, seq };
+            let compound = g.rng.chance(1, 2);
+            let p = pick_maker(g.rng, &mk, compound)(&mut g);
+            actions.push(Action::W(p));
+            actions.push(Action::Ch(b'\n'));
+        }};
+    }
+    match sc {
+        0 => {
+            for _ in 0..rng.range_usize(1, 6) {
+                small!();
+            }
+        }
+        1 => {
+            let len = rng.range_usize(buf - 40, 2 * buf + 40);
+            let mut s = tagged(0, len, true, &mut rng);
+            s.push(' ');
+            actions.push(Action::W(Box::new(StrOwned { s })));
+            for _ in 0..rng.range_usize(1, 30) {
+                small!();
+            }
+        }
+        2 => {
+            actions.push(Action::Flush);
+            rt = false;
+        }
+        3 => {
+            small!();
+            actions.push(Action::Flush);
+            actions.push(Action::Flush);
+        }
+        4 => {
+            small!();
+            actions.push(Action::Flush);
+            small!();
+            actions.push(Action::Flush);
+            actions.push(Action::Flush);
+            small!();
+        }
+        5 => {
+            actions.push(Action::W(Box::new(StrRef { s: String::new() })));
+            actions.push(Action::W(Box::new(PVec::<u8> { v: vec![], kind: "Vec<u8>" })));
+            actions.push(Action::W(Box::new(StrOwned { s: String::new() })));
+            actions.push(Action::W(Box::new(PVec::<String> { v: vec![], kind: "Vec<String>" })));
+            actions.push(Action::Flush);
+            rt = false;
+        }
+        6 => {
+            rt = false;
+        }
+        7 => {
+            for _ in 0..rng.range_usize(5, 25) {
+                small!();
+                actions.push(Action::Flush);
+            }
+            final_flush = true;
+        }
+        8 => {
+            let mut s = tagged(0, buf - 1, true, &mut rng);
+            s.push('\n');
+            actions.push(Action::W(Box::new(StrRef { s })));
+        }
+        9 => {
+            let s = tagged(0, buf, true, &mut rng);
+            actions.push(Action::W(Box::new(StrRef { s })));
+            actions.push(Action::Ch(b'\n'));
+        }
+        10 => {
+            actions.push(Action::Flush);
+            actions.push(Action::Flush);
+            small!();
+        }
+        _ => panic!("unknown lifecycle scenario {}", sc),
+    }
+    CaseSpec { mode: "lifecycle", id, base_seed: base, actions, sink: sink_variant(sv, seed, buf), final_flush, rt, rt_seed: mix(&[seed, 7]), fill_k: None }
+}
+
+// ------------------------------------------------------------------------------------------------
+// Execution of a case against the real Writer
+
+fn replay_args(mode: &str, base: u64, id: &str) -> Vec<String> {
+    vec!["--mode".into(), mode.into(), "--case".into(), format!("{}/{}", base, id)]
+}
+
+fn report_panic(rep: &mut Report, p: common::PanicInfo, cur_fn: &str, mode: &str, replay: Vec<String>, context: Json) {
+    if p.in_lib {
+        let f = if cur_fn.is_empty() { "unknown" } else { cur_fn };
+        rep.violation(
+            format!("panic:{}", f),
+            context
+                .set("what", "the library panicked on a lawful sequence of writes")
+                .set("profile", PROFILE)
+                .set("workload", mode)
+                .set("panic", p.msg.as_str())
+                .set("at", format!("{}:{}", p.file, p.line)),
+            replay,
+        );
+    } else {
+        rep.inconclusive(format!("harness panic at {}:{}: {} (mode {})", p.file, p.line, p.msg, mode));
+    }
+}
+
+/// writes one piece alone through a fresh writer into a plain Vec; None if that panics
+fn isolated(p: &dyn PieceT) -> Option<Vec<u8>> {
+    catch(|| {
+        let mut v = Vec::new();
+        {
+            let mut w = lib!(Writer::new(Box::new(&mut v)));
+            lib!(p.write_to(&mut w));
+            lib!(w.flush());
+            lib!(drop(w));
+        }
+        v
+    })
+    .ok()
+}
+
+/// "render" check on the pieces around a difference: a single value rendered differently from the oracle
+fn isolate_render(rep: &mut Report, pieces: &[&dyn PieceT], replay: &[String]) {
+    for p in pieces {
+        let mut want = Vec::new();
+        p.render(&mut want);
+        if let Some(got) = isolated(*p) {
+            if got != want {
+                let d = common_prefix(&got, &want, 0);
+                rep.violation(
+                    format!("render:{}", p.kind()),
+                    Json::obj()
+                        .set("what", "a single value written alone through a fresh writer is rendered differently from standard formatting")
+                        .set("profile", PROFILE)
+                        .set("piece", p.describe())
+                        .set("got_len", got.len())
+                        .set("want_len", want.len())
+                        .set("first_differing_offset", d)
+                        .set("got_excerpt", excerpt(&got, d))
+                        .set("want_excerpt", excerpt(&want, d)),
+                    replay.to_vec(),
+                );
+            }
+        }
+    }
+}
+
+fn run_actions(spec: &CaseSpec, buf: usize, rep: &mut Report, verbose: bool) {
+    rep.inc("evaluations");
+    rep.see_str("workloads", spec.mode);
+    let replay = replay_args(spec.mode, spec.base_seed, &spec.id);
+    let cur_fn: Cell<&'static str> = Cell::new("");
+    let st = Rc::new(RefCell::new(SinkState::new()));
+    let actions = &spec.actions;
+    let describe = |i: usize| actions.get(i).map(|a| a.describe()).unwrap_or_else(|| if i == actions.len() && spec.final_flush { "final flush()".to_string() } else { "drop(writer)".to_string() });
+    if verbose {
+        eprintln!("case {} {}/{}  profile {}  BUF {}", spec.mode, spec.base_seed, spec.id, PROFILE, buf);
+        eprintln!("  sink: {}", spec.sink.to_json().dump());
+        for (i, a) in actions.iter().enumerate() {
+            if i < 60 || i + 5 >= actions.len() {
+                eprintln!("  #{} {}", i, a.describe());
+            } else if i == 60 {
+                eprintln!("  ... ({} actions in total)", actions.len());
+            }
+        }
+        eprintln!("  then: {}drop(writer){}", if spec.final_flush { "flush(), " } else { "" }, if spec.rt { ", round trip through Reader" } else { "" });
+    }
+    for a in actions {
+        match a {
+            Action::W(p) => rep.see_str("piece_kinds", p.kind()),
+            Action::Ch(_) => rep.see_str("piece_kinds", "char"),
+            Action::Flush => {}
+            Action::Out(ps, ln) => {
+                rep.see_str("piece_kinds", if *ln { "outln!" } else { "out!" });
+                for p in ps {
+                    rep.see_str("piece_kinds", p.kind());
+                }
+            }
+        }
+    }
+    let mut mon = Monitor::new(buf, st.clone());
+    let mut bad: Option<Bad> = None;
+    let mut rt_values = 0u64;
+    let mut rt_bad: Option<(usize, String, String)> = None;
+    let r = catch(|| {
+        let sink = ScriptedWrite::new(&spec.sink, st.clone(), buf);
+        let reader = Reader::new(Box::new(io::empty()));
+        let writer = ManuallyDrop::new(lib!(Writer::new(Box::new(sink))));
+        rlib_io::make_output_macro!(reader, writer);
+        for (i, a) in actions.iter().enumerate() {
+            let pending = writer.verif_pending();
+            let is_flush = matches!(a, Action::Flush);
+            mon.begin(pending, !is_flush);
+            a.render(&mut mon.exp);
+            let mut calls = 1u64;
+            match a {
+                Action::W(p) => {
+                    cur_fn.set("write");
+                    lib!(p.write_to(&mut writer));
+                }
+                Action::Ch(c) => {
+                    cur_fn.set("write_char");
+                    lib!(writer.write_char(*c as char));
+                }
+                Action::Flush => {
+                    cur_fn.set("flush");
+                    mon.flushes += 1;
+                    lib!(writer.flush());
+                }
+                Action::Out(ps, ln) => {
+                    cur_fn.set("out!");
+                    calls = (2 * ps.len()).saturating_sub(1) as u64 + *ln as u64;
+                    let d: Vec<Dyn> = ps.iter().map(|p| Dyn(&**p)).collect();
+                    lib!({
+                        match (d.len(), *ln) {
+                            (0, true) => {
+                                outln!();
+                            }
+                            (1, false) => {
+                                out!(d[0]);
+                            }
+                            (2, false) => {
+                                out!(d[0], d[1]);
+                            }
+                            (3, false) => {
+                                out!(d[0], d[1], d[2]);
+                            }
+                            (4, false) => {
+                                out!(d[0], d[1], d[2], d[3]);
+                            }
+                            (1, true) => {
+                                outln!(d[0]);
+                            }
+                            (2, true) => {
+                                outln!(d[0], d[1]);
+                            }
+                            (3, true) => {
+                                outln!(d[0], d[1], d[2]);
+                            }
+                            (4, true) => {
+                                outln!(d[0], d[1], d[2], d[3]);
+                            }
+                            _ => panic!("harness: out! arity {} not supported", d.len()),
+                        }
+                    });
+                }
+            }
+            cur_fn.set("");
+            let pend = writer.verif_pending();
+            let res = if is_flush { mon.post_flush(pend, "flush()") } else { mon.post_write(pend, calls) };
+            if let Err(b) = res {
+                bad = Some(b);
+                return;
+            }
+            if i == 0 {
+                if let Some(k) = spec.fill_k {
+                    if pend == buf - k {
+                        rep.inc("fill_target_hit");
+                    }
+                }
+            }
+        }
+        if spec.final_flush {
+            mon.begin(writer.verif_pending(), false);
+            cur_fn.set("flush");
+            mon.flushes += 1;
+            lib!(writer.flush());
+            cur_fn.set("");
+            if let Err(b) = mon.post_flush(writer.verif_pending(), "final flush()") {
+                bad = Some(b);
+                return;
+            }
+        }
+        if writer.verif_pending() > 0 {
+            rep.inc("drops_with_pending");
+        }
+        rep.inc("drops");
+        mon.begin(writer.verif_pending(), false);
+        cur_fn.set("drop");
+        lib!(drop(ManuallyDrop::into_inner(writer)));
+        cur_fn.set("");
+        if let Err(b) = mon.post_flush(0, "drop(writer)") {
+            bad = Some(b);
+            return;
+        }
+        // round trip
+        if spec.rt {
+            let mut data = pool_take();
+            data.extend_from_slice(&st.borrow().data);
+            assert!(data.last() == Some(&b'\n') && !data.contains(&b'\r'), "harness: round-trip text must end with \\n and contain no \\r");
+            let mut rd = lib!(Reader::new(Box::new(ScriptedRead::new(data, spec.rt_seed))));
+            cur_fn.set("reader.read");
+            'rt: for (i, a) in actions.iter().enumerate() {
+                let ps: Vec<&dyn PieceT> = match a {
+                    Action::W(p) => vec![&**p],
+                    Action::Out(ps, _) => ps.iter().map(|p| &**p).collect(),
+                    Action::Ch(c) => {
+                        if !c.is_ascii_whitespace() {
+                            let got: char = lib!(rd.read::<char>());
+                            rt_values += 1;
+                            if got != *c as char {
+                                rt_bad = Some((i, "char".into(), format!("read back {:?} but wrote {:?}", got, *c as char)));
+                                break 'rt;
+                            }
+                        }
+                        continue;
+                    }
+                    Action::Flush => continue,
+                };
+                for p in ps {
+                    match p.read_check(&mut rd) {
+                        Ok(n) => rt_values += n,
+                        Err(e) => {
+                            rt_bad = Some((i, p.kind().to_string(), e));
+                            break 'rt;
+                        }
+                    }
+                }
+            }
+            cur_fn.set("");
+        }
+    });
+    mon.flush_counters(rep);
+    rep.count("roundtrip_values", rt_values);
+    if spec.rt && r.is_ok() && bad.is_none() {
+        rep.inc("roundtrip_cases");
+    }
+    if mon.nontrivial() {
+        rep.see("nontrivial", mix(&[hash_str(spec.mode), hash_str(&spec.id), spec.base_seed]));
+    }
+    let npieces = actions.len() + 1 + spec.final_flush as usize;
+    if let Err(p) = r {
+        let ctx = Json::obj()
+            .set("during", cur_fn.get())
+            .set("action_index", mon.starts.len().saturating_sub(1))
+            .set("action", describe(mon.starts.len().saturating_sub(1)))
+            .set("pieces_head", Json::from((0..actions.len().min(8)).map(|i| describe(i)).collect::<Vec<_>>()))
+            .set("sink", spec.sink.to_json());
+        if verbose {
+            eprintln!("  PANIC during {}: {} at {}:{}", cur_fn.get(), p.msg, p.file, p.line);
+        }
+        report_panic(rep, p, cur_fn.get(), spec.mode, replay.clone(), ctx);
+        return;
+    }
+    if let Some(b) = bad {
+        let (mut j, pidx) = bad_detail(&b, &mon, &spec.sink, npieces, &describe);
+        if let Some(k) = spec.fill_k {
+            j.push_kv("fill_level_targeted", format!("BUF-{} = {} bytes pending before piece #1", k, buf - k));
+            let kind: usize = spec.id.split(':').nth(1).and_then(|x| x.parse().ok()).unwrap_or(0);
+            j.push_kv("fill_piece_kind", FILL_KINDS[kind.min(FILL_KINDS.len() - 1)]);
+        }
+        j.push_kv("workload", spec.mode);
+        if verbose {
+            eprintln!("  VIOLATION {}: {}", b.kind, j.dump());
+        }
+        rep.violation(format!("{}:{}:{}", b.kind, PROFILE, spec.mode), j, replay.clone());
+        // is a single value rendered wrongly?
+        let mut near: Vec<&dyn PieceT> = Vec::new();
+        for i in pidx.saturating_sub(1)..(pidx + 2).min(actions.len()) {
+            match &actions[i] {
+                Action::W(p) => near.push(&**p),
+                Action::Out(ps, _) => near.extend(ps.iter().map(|p| &**p)),
+                _ => {}
+            }
+        }
+        isolate_render(rep, &near, &replay);
+        return;
+    }
+    if let Some((i, kind, e)) = rt_bad {
+        let j = Json::obj()
+            .set("what", "reading the produced text back through Reader does not return the value that was written")
+            .set("profile", PROFILE)
+            .set("workload", spec.mode)
+            .set("action_index", i)
+            .set("action", describe(i))
+            .set("mismatch", e)
+            .set("text_len", mon.exp.len())
+            .set("text_around_piece", excerpt(&mon.exp, mon.starts[i]))
+            .set("source_chunking_seed", spec.rt_seed);
+        if verbose {
+            eprintln!("  VIOLATION roundtrip: {}", j.dump());
+        }
+        rep.violation(format!("roundtrip:{}", kind), j, replay);
+        return;
+    }
+    if verbose {
+        let st = st.borrow();
+        eprintln!(
+            "  ok: expected {} bytes, sink {} bytes, sink calls {} (full {}, partial {}, interrupted {}), round-trip values {}",
+            mon.exp.len(),
+            st.data.len(),
+            st.calls,
+            st.full,
+            st.partial,
+            st.interrupted,
+            rt_values
+        );
+    }
+    if rep.wants_sample() && actions.len() <= 10 && mon.exp.len() <= 400 && !actions.is_empty() {
+        let st = st.borrow();
+        rep.sample(
+            Json::obj()
+                .set("mode", spec.mode)
+                .set("case", format!("{}/{}", spec.base_seed, spec.id))
+                .set("actions", Json::from(actions.iter().map(|a| a.describe()).collect::<Vec<_>>()))
+                .set("then", if spec.final_flush { "flush, drop" } else { "drop without flush" })
+                .set("sink_received", show_bytes(&st.data))
+                .set("sink_calls", Json::from(st.log.iter().map(|&(o, a)| if a < 0 { format!("{}->Interrupted", o) } else { format!("{}->{}", o, a) }).collect::<Vec<_>>()))
+                .set("round_trip_values", rt_values),
+        );
+    }
+}
+
+// ------------------------------------------------------------------------------------------------
+// Typed integer cases: value, separator, value, separator, ... through one writer; read back with the same type
+
+fn int_case<T: IntT>(mode: &'static str, id: &str, base: u64, vals: &[T], sv: u64, buf: usize, rep: &mut Report, verbose: bool) {
+    rep.inc("evaluations");
+    rep.see_str("workloads", mode);
+    rep.see_str("piece_kinds", T::NAME);
+    rep.see_str("piece_kinds", "char");
+    let replay = replay_args(mode, base, id);
+    let seed = case_seed(base, mode, id);
+    let sink_spec = sink_variant(sv, seed, buf);
+    let final_flush = seed & 1 == 0;
+    let cur_fn: Cell<&'static str> = Cell::new("");
+    let st = Rc::new(RefCell::new(SinkState::new()));
+    let sep_of = |i: usize| if i % 8 == 7 || i + 1 == vals.len() { b'\n' } else { b' ' };
+    let describe = |i: usize| {
+        if i >= 2 * vals.len() {
+            "flush()/drop(writer)".to_string()
+        } else if i % 2 == 0 {
+            format!("write {} {}", T::NAME, vals[i / 2])
+        } else {
+            format!("write_char {:?}", sep_of(i / 2) as char)
+        }
+    };
+    if verbose {
+        eprintln!("case {} {}/{}  profile {}  BUF {}: {} values of {} with separators", mode, base, id, PROFILE, buf, vals.len(), T::NAME);
+        eprintln!("  sink: {}", sink_spec.to_json().dump());
+        for i in 0..(2 * vals.len()).min(24) {
+            eprintln!("  #{} {}", i, describe(i));
+        }
+    }
+    let mut mon = Monitor::new(buf, st.clone());
+    let mut bad: Option<Bad> = None;
+    let mut rt_values = 0u64;
+    let mut rt_bad: Option<(usize, String)> = None;
+    let mut lens = [false; 48];
+    let r = catch(|| {
+        let sink = ScriptedWrite::new(&sink_spec, st.clone(), buf);
+        let mut writer = ManuallyDrop::new(lib!(Writer::new(Box::new(sink))));
+        for (i, v) in vals.iter().enumerate() {
+            mon.begin(writer.verif_pending(), true);
+            let before = mon.exp.len();
+            write!(mon.exp, "{}", v).unwrap();
+            lens[(mon.exp.len() - before).min(47)] = true;
+            cur_fn.set("write");
+            lib!(writer.write(v));
+            if let Err(b) = mon.post_write(writer.verif_pending(), 1) {
+                bad = Some(b);
+                return;
+            }
+            mon.begin(writer.verif_pending(), true);
+            let sep = sep_of(i);
+            mon.exp.push(sep);
+            cur_fn.set("write_char");
+            lib!(writer.write_char(sep as char));
+            if let Err(b) = mon.post_write(writer.verif_pending(), 1) {
+                bad = Some(b);
+                return;
+            }
+        }
+        if final_flush {
+            mon.begin(writer.verif_pending(), false);
+            cur_fn.set("flush");
+            mon.flushes += 1;
+            lib!(writer.flush());
+            if let Err(b) = mon.post_flush(writer.verif_pending(), "final flush()") {
+                bad = Some(b);
+                return;
+            }
+        }
+        if writer.verif_pending() > 0 {
+            rep.inc("drops_with_pending");
+        }
+        rep.inc("drops");
+        mon.begin(writer.verif_pending(), false);
+        cur_fn.set("drop");
+        lib!(drop(ManuallyDrop::into_inner(writer)));
+        if let Err(b) = mon.post_flush(0, "drop(writer)") {
+            bad = Some(b);
+            return;
+        }
+        if vals.is_empty() {
+            return;
+        }
+        let data = std::mem::take(&mut st.borrow_mut().data);
+        let mut rd = lib!(Reader::new(Box::new(ScriptedRead::new(data, mix(&[seed, 7])))));
+        cur_fn.set("reader.read");
+        for (i, v) in vals.iter().enumerate() {
+            let got: T = lib!(rd.read::<T>());
+            rt_values += 1;
+            if got != *v {
+                rt_bad = Some((i, format!("read back {} but wrote {}", got, v)));
+                break;
+            }
+        }
+        cur_fn.set("");
+    });
+    // the sink data was moved into the reader after the final comparison; restore the length-based counters first
+    mon.flush_counters(rep);
+    rep.count("roundtrip_values", rt_values);
+    for (l, &b) in lens.iter().enumerate() {
+        if b {
+            rep.see_str("int_type_x_rendered_len", &format!("{}:{}", T::NAME, l));
+        }
+    }
+    if mon.nontrivial() {
+        rep.see("nontrivial", mix(&[hash_str(mode), hash_str(id), base]));
+    }
+    if let Err(p) = r {
+        let step = mon.starts.len().saturating_sub(1);
+        let ctx = Json::obj().set("during", cur_fn.get()).set("action_index", step).set("action", describe(step)).set("sink", sink_spec.to_json());
+        if verbose {
+            eprintln!("  PANIC during {}: {} at {}:{}", cur_fn.get(), p.msg, p.file, p.line);
+        }
+        report_panic(rep, p, cur_fn.get(), mode, replay, ctx);
+        return;
+    }
+    if let Some(b) = bad {
+        let (j, pidx) = bad_detail(&b, &mon, &sink_spec, 2 * vals.len() + 2, &describe);
+        let j = j.set("workload", mode).set("int_type", T::NAME);
+        if verbose {
+            eprintln!("  VIOLATION {}: {}", b.kind, j.dump());
+        }
+        rep.violation(format!("{}:{}:{}", b.kind, PROFILE, mode), j, replay.clone());
+        let vi = pidx / 2;
+        let near: Vec<Plain<T>> = (vi.saturating_sub(1)..(vi + 2).min(vals.len())).map(|i| Plain { v: vals[i], kind: T::NAME }).collect();
+        let refs: Vec<&dyn PieceT> = near.iter().map(|p| p as &dyn PieceT).collect();
+        isolate_render(rep, &refs, &replay);
+        return;
+    }
+    if let Some((i, e)) = rt_bad {
+        let j = Json::obj()
+            .set("what", "reading the produced text back through Reader does not return the value that was written")
+            .set("profile", PROFILE)
+            .set("workload", mode)
+            .set("value_index", i)
+            .set("mismatch", e)
+            .set("text_around_value", excerpt(&mon.exp, mon.starts[2 * i]));
+        if verbose {
+            eprintln!("  VIOLATION roundtrip: {}", j.dump());
+        }
+        rep.violation(format!("roundtrip:{}", T::NAME), j, replay);
+        return;
+    }
+    rep.inc("roundtrip_cases");
+    if verbose {
+        eprintln!("  ok: expected {} bytes delivered, {} values read back", mon.exp.len(), rt_values);
+    }
+}
+
+macro_rules! by_int_type {
+    ($name:expr, $f:ident ( $($arg:expr),* )) => {
+        match $name {
+            "i8" => $f::<i8>($($arg),*),
+            "u8" => $f::<u8>($($arg),*),
+            "i16" => $f::<i16>($($arg),*),
+            "u16" => $f::<u16>($($arg),*),
+            "i32" => $f::<i32>($($arg),*),
+            "u32" => $f::<u32>($($arg),*),
+            "i64" => $f::<i64>($($arg),*),
+            "u64" => $f::<u64>($($arg),*),
+            "i128" => $f::<i128>($($arg),*),
+            "u128" => $f::<u128>($($arg),*),
+            "isize" => $f::<isize>($($arg),*),
+            "usize" => $f::<usize>($($arg),*),
+            other => panic!("unknown integer type {}", other),
+        }
+    };
+}
+
+/// id = sweep:<chunk>:<nchunks>:<sv> | special:<sv> | rand:<i>:<n>   (after the type name)
+fn int_dispatch<T: IntT>(what: &str, rest: &[&str], id: &str, base: u64, buf: usize, rep: &mut Report, verbose: bool) {
+    let num = |i: usize| -> u64 { rest[i].parse().expect("numeric case parameter") };
+    match what {
+        "sweep" => {
+            let (chunk, nchunks, sv) = (num(0), num(1), num(2));
+            let total = 1u64 << T::BITS;
+            let per = total / nchunks;
+            let vals: Vec<T> = (chunk * per..(chunk + 1) * per).map(|x| T::from_bits(x as u128)).collect();
+            rep.count("sweep_values", vals.len() as u64);
+            int_case::<T>("integers", id, base, &vals, sv, buf, rep, verbose);
+        }
+        "special" => {
+            let sv = num(0);
+            let mut vals = specials::<T>();
+            if sv % 2 == 1 {
+                Rng::new(case_seed(base, "integers", id)).shuffle(&mut vals);
+            }
+            rep.count("special_values", vals.len() as u64);
+            int_case::<T>("integers", id, base, &vals, sv, buf, rep, verbose);
+        }
+        "rand" => {
+            let (i, n) = (num(0), num(1));
+            let mut rng = Rng::new(mix(&[case_seed(base, "integers", id), 99]));
+            let vals: Vec<T> = (0..n).map(|_| gen_int::<T>(&mut rng)).collect();
+            rep.count("random_int_values", n);
+            int_case::<T>("integers", id, base, &vals, i % 8, buf, rep, verbose);
+        }
+        other => panic!("unknown integer case kind {}", other),
+    }
+}
+
+fn run_by_id(mode: &str, id: &str, base: u64, buf: usize, rep: &mut Report, verbose: bool) {
+    let parts: Vec<&str> = id.split(':').collect();
+    let num = |i: usize| -> u64 { parts[i].parse().expect("numeric case parameter") };
+    match mode {
+        "integers" => {
+            // <kind>:<type>:...
+            let (what, ty) = (parts[0], parts[1]);
+            by_int_type!(ty, int_dispatch(what, &parts[2..], id, base, buf, rep, verbose));
+        }
+        "u32sweep" => {
+            let chunk = num(0);
+            let vals: Vec<u32> = ((chunk << 16)..((chunk + 1) << 16)).map(|x| x as u32).collect();
+            rep.count("sweep_values", vals.len() as u64);
+            int_case::<u32>("u32sweep", id, base, &vals, LIGHT_SVS[(chunk % 5) as usize], buf, rep, verbose);
+        }
+        "fill" => run_actions(&build_fill(num(0) as usize, num(1) as usize, num(2), base, buf), buf, rep, verbose),
+        "strings" => run_actions(&build_strings(num(0) as usize, num(1) != 0, num(2) as usize, num(3), base, buf), buf, rep, verbose),
+        "compound" => run_actions(&build_compound(num(0), base, buf), buf, rep, verbose),
+        "random" => run_actions(&build_random(num(0), base, buf), buf, rep, verbose),
+        "lifecycle" => run_actions(&build_lifecycle(num(0) as usize, num(1), base, buf), buf, rep, verbose),
+        m => panic!("unknown mode {}", m),
+    }
+}
+
+/// the case ids of a mode in the given tier (heavy ones first)
+fn case_ids(mode: &str, thorough: bool, buf: usize, a: &common::Args) -> Vec<String> {
+    let mut v = Vec::new();
+    match mode {
+        "integers" => {
+            let svs: Vec<u64> = if thorough { LIGHT_SVS.to_vec() } else { vec![0] };
+            for ty in ["i16", "u16"] {
+                for chunk in 0..4u64 {
+                    for &sv in &svs {
+                        // quick: rotate the light variants over the chunks
+                        let sv = if thorough { sv } else { LIGHT_SVS[((chunk + (ty == "u16") as u64 * 2) % 5) as usize] };
+                        v.push(format!("sweep:{}:{}:4:{}", ty, chunk, sv));
+                    }
+                }
+            }
+            for ty in ["i8", "u8"] {
+                for sv in 0..8 {
+                    v.push(format!("sweep:{}:0:1:{}", ty, sv));
+                }
+            }
+            for ty in INT_TYPES {
+                for sv in 0..(if thorough { 8 } else { 3 }) {
+                    v.push(format!("special:{}:{}", ty, sv));
+                }
+                let (cases, n) = if thorough { (a.u64("int-cases", 300), 2500) } else { (a.u64("int-cases", 4), 500) };
+                for i in 0..cases {
+                    v.push(format!("rand:{}:{}:{}", ty, i, n));
+                }
+            }
+        }
+        "u32sweep" => {
+            let stride = a.u64("u32-stride", 1).max(1);
+            let mut c = 0u64;
+            while c < 65536 {
+                v.push(format!("{}", c));
+                c += stride;
+            }
+        }
+        "fill" => {
+            let kmax = if thorough { 200 } else { 64 };
+            for kind in [9usize, 8, 0, 1, 2, 3, 4, 5, 6, 7, 10, 11, 12, 13] {
+                for k in 0..=kmax {
+                    if thorough {
+                        for sv in 0..8 {
+                            v.push(format!("{}:{}:{}", k, kind, sv));
+                        }
+                    } else {
+                        let x = (k + kind) as u64;
+                        for sv in [0, 1 + x % 7, 1 + (x + 3) % 7] {
+                            v.push(format!("{}:{}:{}", k, kind, sv));
+                        }
+                    }
+                }
+            }
+        }
+        "strings" => {
+            let nl = string_lens(buf).len();
+            let np = string_prefills(buf).len();
+            for li in (0..nl).rev() {
+                for owned in 0..2 {
+                    for pi in 0..np {
+                        for sv in 0..(if thorough { 8 } else { 4 }) {
+                            let sv = if thorough { sv } else { (sv * 2 + (li + pi) as u64 % 2) % 8 };
+                            v.push(format!("{}:{}:{}:{}", li, owned, pi, sv));
+                        }
+                    }
+                }
+            }
+        }
+        "compound" => {
+            for i in 0..a.u64("compound-cases", if thorough { 200_000 } else { 3000 }) {
+                v.push(format!("{}", i));
+            }
+        }
+        "random" => {
+            for i in 0..a.u64("random-cases", if thorough { 30_000 } else { 800 }) {
+                v.push(format!("{}", i));
+            }
+        }
+        "lifecycle" => {
+            for rep_i in 0..(if thorough { 40 } else { 2 }) {
+                for sc in 0..LIFE_SCENARIOS.len() {
+                    for sv in 0..8u64 {
+                        // sv beyond 7 selects the same sink kind with a different seed
+                        v.push(format!("{}:{}", sc, sv + 8 * rep_i));
+                    }
+                }
+            }
+        }
+        m => panic!("unknown mode {}", m),
+    }
+    v
+}
+
+/// the harness's own sink and source must behave as specified, otherwise nothing below means anything
+fn self_check(buf: usize) -> Result<(), String> {
+    let data: Vec<u8> = (0..(buf + 1000)).map(|i| (i % 251) as u8).collect();
+    for sv in 0..8 {
+        let st = Rc::new(RefCell::new(SinkState::new()));
+        let mut s = ScriptedWrite::new(&sink_variant(sv, 42, buf), st.clone(), buf);
+        s.write_all(&data).map_err(|e| format!("ScriptedWrite variant {}: write_all failed: {}", sv, e))?;
+        let st = st.borrow();
+        if st.data != data {
+            return Err(format!("ScriptedWrite variant {} did not record exactly what it accepted", sv));
+        }
+        if sv == 1 && (st.partial == 0 || st.interrupted == 0) {
+            return Err("ScriptedWrite variant 1 should produce partial accepts and Interrupted".into());
+        }
+    }
+    for seed in 0..10 {
+        let mut r = ScriptedRead::new(data.clone(), seed);
+        let mut back = Vec::new();
+        r.read_to_end(&mut back).map_err(|e| format!("ScriptedRead: {}", e))?;
+        if back != data {
+            return Err("ScriptedRead does not deliver its data".into());
+        }
+    }
+    let mut o = Vec::new();
+    (1u8, vec![-2i64, 3], "x".to_string()).ren(&mut o);
+    if o != b"1 -2 3 x" {
+        return Err("oracle rendering self-check failed".into());
+    }
+    if diagnose(b"abcdef", b"abXXcdef", 2).split(':').next() != Some("lost") || diagnose(b"abcdcdef", b"abcdef", 4).split(':').next() != Some("duplicated") {
+        return Err("diagnosis self-check failed".into());
+    }
+    Ok(())
+}
+
+const ALL_MODES: [&str; 6] = ["integers", "fill", "strings", "random", "compound", "lifecycle"];
+
+fn main() {
+    let eng = Engine::start("writemon");
+    let a = &eng.args;
+    let mode = a.str("mode", "all");
+    let thorough = a.thorough();
+    let seed = a.seed();
+    let buf = Writer::verif_buf_size();
+    let mut report = Report::new();
+    report.extra("mode", mode.as_str());
+    report.extra("profile", PROFILE);
+    report.extra("debug_assertions", cfg!(debug_assertions));
+    report.extra("buf_size", buf);
+    report.extra("reader_buf_size", Reader::verif_buf_size());
+    report.extra("exhaustive", false);
+    report.extra(
+        "nontrivial_rule",
+        "a case (one writer lifetime) in which the writer handed data to the sink in the middle of the sequence, i.e. during a write / write_char / out! call \
+         (release: the buffer filled up; dev: every write), and the sink answered at least one call with a partial accept or Interrupted",
+    );
+    if let Err(e) = self_check(buf) {
+        report.inconclusive(format!("self-check: {}", e));
+        eng.finish(report);
+    }
+    if buf < 1024 {
+        report.inconclusive(format!("buffer size {} is too small for the workloads", buf));
+        eng.finish(report);
+    }
+    if let Some(c) = a.opt("case") {
+        let (base, id) = match c.split_once('/') {
+            Some((s, id)) => (s.parse::<u64>().expect("seed in case id"), id.to_string()),
+            None => (seed, c.clone()),
+        };
+        if mode == "all" {
+            panic!("--case needs --mode");
+        }
+        let m = mode.clone();
+        let rep = common::run_big_stack(move || {
+            let mut rep = Report::new();
+            let r = catch(|| run_by_id(&m, &id, base, buf, &mut rep, true));
+            if let Err(p) = r {
+                rep.inconclusive(format!("harness panic at {}:{}: {}", p.file, p.line, p.msg));
+            }
+            rep
+        });
+        report.merge(rep);
+        eng.finish(report);
+    }
+    let mut modes: Vec<&str> = if mode == "all" { ALL_MODES.to_vec() } else { vec![mode.as_str()] };
+    if mode == "all" && thorough {
+        modes.insert(0, "u32sweep");
+    }
+    let mut tasks: Vec<(String, String)> = Vec::new();
+    let mut per_mode = Json::obj();
+    for m in &modes {
+        let ids = case_ids(m, thorough, buf, a);
+        per_mode.push_kv(m, ids.len());
+        tasks.extend(ids.into_iter().map(|id| (m.to_string(), id)));
+    }
+    report.extra("cases_per_mode", per_mode);
+    if modes.contains(&"u32sweep") {
+        let stride = a.u64("u32-stride", 1).max(1);
+        report.extra(
+            "u32_sweep",
+            if stride == 1 { "every u32 value rendered once (65536 chunks of 65536 values, each chunk one writer lifetime, read back)".to_string() } else { format!("every {}th chunk of 65536 consecutive u32 values", stride) },
+        );
+    }
+    if modes.contains(&"integers") {
+        report.extra("int_widths_swept_exhaustively", if modes.contains(&"u32sweep") && a.u64("u32-stride", 1) <= 1 { "8, 16, 32 (u32)" } else { "8, 16" });
+    }
+    let q = WorkQueue::new(tasks.len() as u64);
+    let tasks = &tasks;
+    let rep = common::run_sharded(a.threads(), |_s, rep| {
+        rep.sample_cap = 1;
+        while let Some(i) = q.take() {
+            let (m, id) = &tasks[i as usize];
+            let r = catch(|| run_by_id(m, id, seed, buf, rep, false));
+            if let Err(p) = r {
+                rep.inconclusive(format!("harness panic at {}:{}: {} (case {} {}/{})", p.file, p.line, p.msg, m, seed, id));
+            }
+        }
+    });
+    report.merge(rep);
+    let writes = report.counters.get("nonempty_write_actions").cloned().unwrap_or(0);
+    let fpw = report.counters.get("flush_per_write_observed").cloned().unwrap_or(0);
+    report.extra("flush_per_write_observed", fpw);
+    report.extra("flush_per_write_share", if writes > 0 { fpw as f64 / writes as f64 } else { 0.0 });
+    eng.finish(report);
+}
+
